@@ -296,6 +296,10 @@ pub fn run(rep: &mut Report) {
             st.inc("cases");
             judge_unary::<quizx::vec_graph::Graph>(st, spec, "vec", None);
             judge_unary::<quizx::hash_graph::Graph>(st, spec, "hash", None);
+            // the same diagram with an id gap (two vertices created and removed first)
+            let mut gapped = spec.clone();
+            gapped.gap = 2;
+            judge_unary::<quizx::vec_graph::Graph>(st, &gapped, "vec", None);
             st.sample(2, || spec.to_json());
             watch_end();
         });
